@@ -10,8 +10,55 @@ open MongoModel MongoModel.Pipe MongoModel.Spec MongoModel.Spec.Pipe MongoModel.
 
 /-! ### one document -/
 
+theorem freshPath_eq_nestDoc : ∀ (ks : List String) (v : Val), freshPath ks v = nestDoc ks v
+  | [], _ => rfl
+  | k :: ks, v => by simp only [freshPath, nestDoc, freshPath_eq_nestDoc ks v]
+
+mutual
+  /-- the code's `_add_field` is the oracle's deep write: through documents, into every item of
+      an array, in the place of anything else -/
+  theorem addField_eq_setDeep : ∀ (x : Val) (ks : List String) (v : Val),
+      addField x ks v = setDeep x ks v
+    | .null, [], _ | .bool _, [], _ | .int _, [], _ | .dbl _ _, [], _ | .str _, [], _
+    | .date _ _, [], _ | .oid _, [], _ | .doc _, [], _ | .arr _, [], _ => by
+      simp only [addField, setDeep]
+    | .arr xs, k :: ks, v => by
+      simp only [addField, setDeep, addFieldItems_eq xs (k :: ks) v]
+    | .doc fs, k :: ks, v => by
+      simp only [addField, setDeep, addFieldIn_eq fs k ks v]
+    | .null, k :: ks, v | .bool _, k :: ks, v | .int _, k :: ks, v | .dbl _ _, k :: ks, v
+    | .str _, k :: ks, v | .date _ _, k :: ks, v | .oid _, k :: ks, v => by
+      simp only [addField, setDeep, freshPath_eq_nestDoc]
+  theorem addFieldItems_eq : ∀ (xs : List Val) (ks : List String) (v : Val),
+      addFieldItems xs ks v = setDeepItems xs ks v
+    | [], _, _ => by simp only [addFieldItems, setDeepItems]
+    | x :: xs, ks, v => by
+      simp only [addFieldItems, setDeepItems, addField_eq_setDeep x ks v, addFieldItems_eq xs ks v]
+  theorem addFieldIn_eq : ∀ (fs : Fields) (k : String) (ks : List String) (v : Val),
+      addFieldIn fs k ks v = setDeepIn fs k ks v
+    | [], k, ks, v => by simp only [addFieldIn, setDeepIn, freshPath_eq_nestDoc]
+    | (k', x) :: r, k, ks, v => by
+      simp only [addFieldIn, setDeepIn, addField_eq_setDeep x ks v, addFieldIn_eq r k ks v]
+end
+
+theorem setDeepItems_eq_map (xs : List Val) (ks : List String) (v : Val) :
+    setDeepItems xs ks v = xs.map (fun x => setDeep x ks v) := by
+  induction xs with
+  | nil => simp only [setDeepItems, List.map_nil]
+  | cons x r ih => simp only [setDeepItems, List.map_cons, ih]
+
+theorem dget_setDeepIn_other (k k' : String) (ks : List String) (v : Val) (h : k' ≠ k) :
+    ∀ fs : Fields, dget k' (setDeepIn fs k ks v) = dget k' fs
+  | [] => by simp [setDeepIn, dget, Ne.symm h]
+  | (k'', x) :: r => by
+    by_cases h2 : k'' = k
+    · subst h2; simp [setDeepIn, dget, Ne.symm h]
+    · by_cases h3 : k'' = k'
+      · subst h3; simp [setDeepIn, dget, h2]
+      · simp [setDeepIn, dget, h2, h3, dget_setDeepIn_other k k' ks v h r]
+
 /-- the stage on one document: every expression is read on the input document, a dotted name is
-    written as the oracle's `setNested` does -/
+    written as the oracle's `setDeepIn` does -/
 theorem afDoc_eq_spec : ∀ (es : Fields) (s : AfState) (acc' : Fields),
     (∀ kv ∈ es, exprReasons kv.2 (.doc s.inD) = []) →
     specSetFields (.doc s.inD) es s.outD = some acc' →
@@ -37,14 +84,13 @@ theorem afDoc_eq_spec : ∀ (es : Fields) (s : AfState) (acc' : Fields),
         simp only [afDoc, afStep, hev, hc]
       | some v =>
         simp only [hv] at h
-        split at h
-        · cases h
-        · have hc := afDoc_eq_spec rest
-            { s with outD := setNested (splitDots name) v s.outD } acc' hrest h
-          have hne := MongoModel.Proofs.C12.splitDots_ne_nil name
-          have hstep : afStep name e s =
-              .ok { s with outD := setNested (splitDots name) v s.outD } := by
-            simp only [afStep, hev, nestedSet_eq_setNested]
+        cases hsp : splitDots name with
+        | nil => simp [hsp] at h
+        | cons k ks =>
+          simp only [hsp] at h
+          have hc := afDoc_eq_spec rest { s with outD := setDeepIn s.outD k ks v } acc' hrest h
+          have hstep : afStep name e s = .ok { s with outD := setDeepIn s.outD k ks v } := by
+            simp only [afStep, hev, hsp, addFieldIn_eq]
           simp only [afDoc, hstep, hc]
 
 /-! ### the field-major loop of the stage is the document-major one -/
